@@ -22,6 +22,13 @@ def check(run, only=None):
         r = common.run_tlc("LexChan", neg, deadlock=dl, expect_fail=True, count=False, timeout=600)
         if r["ok"]:
             raise common.Infra("negative configuration %s was not rejected" % neg)
+    # bonus (never decides the verdict): the same protocol for token streams of ANY length - Apalache proves IndInv of
+    # spec/LexChanInd.tla inductive (base, step, per-step variant) and rejects the variant that does not signal `done`
+    for args, neg in ((["--cinit=CInit", "--init=Init", "--inv=Safe", "--length=0"], False),
+                      (["--cinit=CInit", "--init=IndInit", "--inv=Safe", "--length=1"], False),
+                      (["--cinit=CInit", "--init=IndInit", "--inv=Variant", "--length=1"], False),
+                      (["--cinit=CInitNoDrain", "--init=IndInit", "--inv=Safe", "--length=1"], True)):
+        common.run_apalache("LexChanInd", args, expect_fail=neg)
     for neg in ("C19_neg_drain", "C19_neg_files"):
         r = common.run_tlc("C19", neg, expect_fail=True, count=False, timeout=600)
         if r["ok"]:
